@@ -52,9 +52,8 @@ theorem newAllocation_none {s : State} (h : Inv s) (n : Nat) (hle : n ≤ 107374
   have h2 := h.top
   have h3 := h.pages_le
   have hsum : (s.heapPtr + (8 + n)) % 4294967296 = s.heapPtr + 8 + n := by omega
-  have hlt : s.heapPtr + 8 + n < 2147483648 := by omega
   unfold newAllocation GrowFails
-  simp only [hsum, hlt, true_and]
+  simp only [hsum]
   by_cases hg : s.heapPtr + 8 + n ≥ s.heapTop
   · by_cases hm : s.pages + (8 + n + 65535) / 65536 > s.cfg.maxPages
     · simp [hg, hm]
@@ -88,7 +87,7 @@ theorem malloc_zero_iff_inv {s : State} (h : Inv s) (req : Nat) (hok : OpOK s.cf
       ((s.cfg.cap ≠ 0 ∧ effSize s.cfg req ≤ 80) → getFx s (effList s.cfg req) = []) ∧
       (∀ b ∈ s.free, b.2 < effSize s.cfg req) ∧ GrowFails s (effSize s.cfg req) := by
   unfold OpOK at hok
-  rw [malloc_ret_zero, reuseFixed_none, reuseVarying_none, scan_none_iff_free s _ (effSize_pos s.cfg req hok.2),
-    newAllocation_none h _ (effSize_le s.cfg req hok.1)]
+  rw [malloc_ret_zero, reuseFixed_none, reuseVarying_none, scan_none_iff_free s _ (effSize_pos s.cfg req),
+    newAllocation_none h _ (effSize_le s.cfg req hok)]
 
 end WaVerif.C10
